@@ -51,4 +51,70 @@ mod verif_app_wit {
             }
         }
     }
+
+    fn load_app_with_grid_search() -> CompassApp {
+        let mut app = load_app();
+        app.input_plugins.push(std::sync::Arc::new(crate::plugin::input::default::grid_search::plugin::GridSearchPlugin {}));
+        app
+    }
+
+    /// C12 / C06: batches in which some or ALL queries are rejected during input processing (ill-typed grid section, a query that is not an
+    /// object) -- every query is answered with an error response that echoes its request, at every batch size 1..=4
+    #[test]
+    fn c12_wit_rejected_only_batches() {
+        let app = load_app_with_grid_search();
+        let bad_grid = |i: usize| json!({"id": i, "origin_vertex": 0, "destination_vertex": 2, "grid_search": "not-an-object"});
+        for n in 1..=4usize {
+            for n_good in 0..=1usize {
+                let mut batch: Vec<Value> = (0..n).map(|i| if i % 2 == 0 { bad_grid(i) } else { json!(7) }).collect();
+                if n_good == 1 { batch.push(json!({"id": 99, "origin_vertex": 0, "destination_vertex": 2})); }
+                let responses = app.run(batch.clone(), None).expect("user-level errors are responses, not a failed run");
+                assert_eq!(responses.len(), batch.len(), "{} rejected + {} good: one response per query, found {}", n, n_good, serde_json::to_string(&responses).unwrap());
+                assert_eq!(responses.iter().filter(|r| r.get("error").is_some()).count(), n, "every rejected query is an error response");
+                for r in responses.iter() { assert!(r.get("request").is_some(), "the response echoes its request: {}", r); }
+                for q in batch.iter().filter(|q| q.get("grid_search").is_some()) {
+                    assert!(responses.iter().any(|r| r.get("request") == Some(q)), "the rejected query {} is echoed", q);
+                }
+            }
+        }
+    }
+
+    /// C17: object-valued grid choices with DIFFERENT key sets -- each generated query is the original minus the grid section overlaid with
+    /// exactly its own combination (no key leaks from one generated query into another); one and two axes
+    #[test]
+    fn c17_wit_grid_object_choices_do_not_leak() {
+        use crate::plugin::input::default::grid_search::plugin::GridSearchPlugin;
+        use crate::plugin::input::input_plugin::InputPlugin;
+        let mut q1 = json!({"origin_vertex": 3, "grid_search": {"test_cases": [
+            {"name": "fastest", "weights": {"time": 1, "distance": 0}}, {"name": "ev", "model_name": "bolt", "starting_soc_percent": 80}, {"name": "plain"}]}});
+        GridSearchPlugin {}.process(&mut q1).unwrap();
+        assert_eq!(q1, json!([{"origin_vertex": 3, "name": "fastest", "weights": {"time": 1, "distance": 0}},
+                              {"origin_vertex": 3, "name": "ev", "model_name": "bolt", "starting_soc_percent": 80}, {"origin_vertex": 3, "name": "plain"}]));
+        let mut q2 = json!({"keep": "me", "grid_search": {"a": [1, 2], "_case": [{"x": 0}, {"y": 1}]}});
+        GridSearchPlugin {}.process(&mut q2).unwrap();
+        let got = q2.as_array().expect("an array of generated queries").clone();
+        let mut expected = vec![json!({"keep": "me", "a": 1, "x": 0}), json!({"keep": "me", "a": 2, "x": 0}), json!({"keep": "me", "a": 1, "y": 1}), json!({"keep": "me", "a": 2, "y": 1})];
+        assert_eq!(got.len(), 4, "2 x 2 combinations");
+        for g in got.iter() {
+            let i = expected.iter().position(|e| e == g).unwrap_or_else(|| panic!("unexpected generated query {}", g));
+            expected.remove(i);
+        }
+        // a query without a grid section passes through unchanged
+        let mut q3 = json!({"origin_vertex": 1, "destination_vertex": 2});
+        GridSearchPlugin {}.process(&mut q3).unwrap();
+        assert_eq!(q3, json!({"origin_vertex": 1, "destination_vertex": 2}));
+    }
+
+    /// C17: nested arrays produced by a plugin are flattened into the query list also when only SOME queries of the list were expanded
+    #[test]
+    fn c17_wit_flatten_partial_expansion() {
+        use crate::plugin::input::default::grid_search::plugin::GridSearchPlugin;
+        use crate::plugin::input::input_plugin::InputPlugin;
+        use crate::plugin::input::input_plugin_ops::{json_array_op, InputArrayOp};
+        let mut state = json!([{"id": "with_grid", "grid_search": {"a": [1, 2]}}, {"id": "no_grid", "a": 7}]);
+        let plugin = GridSearchPlugin {};
+        let op: InputArrayOp = std::rc::Rc::new(|q| plugin.process(q));
+        json_array_op(&mut state, op).unwrap();
+        assert_eq!(state, json!([{"id": "with_grid", "a": 1}, {"id": "with_grid", "a": 2}, {"id": "no_grid", "a": 7}]));
+    }
 }
